@@ -799,6 +799,7 @@ func c09(c *Ctx) {
 			})
 		}
 	}
+	errorsExamined(c, "R7.errors-examined", "OFFER / ACCEPT paths", []string{"portalwire"}, ".handleOffer", ".handleOfferedContents", ".processOffer", ".filterContentKeys", ".handleV0Offer", ".handleV1Offer", ".parseOfferResp", ".offer", "decodeContents")
 }
 
 // inflightOp: a place where a whole key set is put into (Set) or taken out of (Del) the cache of
